@@ -539,3 +539,20 @@ Theorem c13_code_suppression_list :
 Proof. exact gen_as_new_flow_unset_table. Qed.
 Print Assumptions c13_code_as_new_flow.
 Print Assumptions c13_code_suppression_list.
+
+(* ================================================================== can_redirect_auth_header itself (translated from the source) *)
+(** The test that decides whether the target of a redirect may keep the credentials under the SameHost policy -- same host, and the
+    same scheme or an upgrade to https -- is translated on every run (theories/Gen2.v, [gen_can_redirect_auth_header]; what it reads
+    off the two URIs are values) and is the model's [can_redirect_auth_header] on the model's (absolute) URIs
+    (proofs/Gen2_equiv_auth.v).  In [c13_code_as_new_flow] it is the parameter [may_keep_auth]. *)
+From Hoot.proofs Require Import Gen2_equiv_auth.
+Theorem c13_code_can_redirect_auth_header : forall prev next,
+  gen_can_redirect_auth_header (Some (uri_host prev)) (Some (uri_host next)) (Some (u_scheme prev)) (Some (u_scheme next))
+  = can_redirect_auth_header prev next.
+Proof. exact gen_can_redirect_auth_header_eq. Qed.
+Print Assumptions c13_code_can_redirect_auth_header.
+Theorem c13_code_can_redirect_auth_header_spec : forall hp hn sp sn,
+  gen_can_redirect_auth_header hp hn sp sn = true <->
+  opt_bytes_eqb hp hn = true /\ (opt_bytes_eqb sp sn = true \/ opt_bytes_eqb sn (Some (s2b "https")) = true).
+Proof. exact gen_can_redirect_auth_header_spec. Qed.
+Print Assumptions c13_code_can_redirect_auth_header_spec.
